@@ -116,6 +116,19 @@ CHECKS = {
             'three initialisation labels and the unused rule, one-directional (no missed read) for loops and calls.',
             'Reference walker (30 lines) and plain exec are the ground truth; two open known findings (for-body assumed '
             'to run, function-local scoping) are tolerated by root-cause cell.', '3/C09'),
+    'C10': ('Hypothesis-generated (program, pattern) pairs - patterns derived from the program, single-edit near misses of '
+            'those, fragments of other programs, patterns with foreign content - with every returned AstMap validated by an '
+            'independent witness checker',
+            'About 8k pairs per quick run (320k thorough); soundness of each match is checked node by node (class, typed '
+            'content, child embedding and order, placeholder consistency, match_root).',
+            'Witness checker (about 120 lines) is the trusted part; Expr/Module transparency, pass-as-wildcard and None fields '
+            'are exempt as pedal documents them.', '3/C10'),
+    'C11': ('Hypothesis-generated derivations (fragment choice + wildcard/rename/drop steps) of patterns from the program '
+            'itself; by-construction oracle on existence of a match and on placeholder bindings at every stage',
+            'About 8k derivations per quick run (320k thorough) over CS1, full-grammar and corpus programs; every prefix of '
+            'a derivation is checked, which is the monotonicity clause.',
+            'Identifiers occurring in plain-string AST fields are not renamed; wildcards are not placed inside f-strings, '
+            'match patterns, type aliases, starred/unpacking arguments, slices.', '3/C11'),
 }
 
 NOT_YET = {}
